@@ -37,8 +37,9 @@ Definition clean (C : Circuit) : bool := lint_cleanb C && bool_decide (c_bbs C =
 Definition holds (k : case) : bool :=
   match k with
   | CClog2 num obs =>
-      (* clog2(n) = ceil(log2 n) for n >= 1; ValueError below 1 *)
-      if (num <? 1)%Z then bool_decide (obs = Raise ValueError)
+      (* clog2(n) = ceil(log2 n) for n >= 1; below 1 there is no such number: any exception is fine, a number is not
+         (that it is ValueError is checked by agree against the model, C13_clog2_rejects) *)
+      if (num <? 1)%Z then match obs with Raise _ => true | _ => false end
       else match obs with
            | Ok k => (num <=? 2 ^ Z.of_nat k)%Z && (bool_decide (k = 0) || (2 ^ (Z.of_nat k - 1) <? num)%Z)
            | _ => false end
@@ -46,19 +47,19 @@ Definition holds (k : case) : bool :=
       (* round trip; and the tuple has w entries whenever i < 2^w (w >= 1) *)
       bool_decide (back = Ok i) && ((2 ^ N.of_nat w <=? i)%N || bool_decide (w = 0) || bool_decide (length obs = w))
   | CB2I b lend obs =>
-      match b with [] => bool_decide (obs = Raise ValueError)
+      match b with [] => true        (* the property does not speak about the empty tuple; agree pins the ValueError *)
       | _ => bool_decide (obs = Ok (foldr (λ x acc, (N.b2n x + 2 * acc)%N) 0%N (if lend then b else reverse b))) end
   | CHalf C => half_adder_ok (c_g C) && clean C
   | CFull C => full_adder_ok (c_g C) && clean C
   | CAdder w ci co C => adder_ok w ci co (c_g C) && clean C
   | CMux w obs =>
       match w, obs with
-      | O, r => bool_decide (r = Raise ValueError)      (* clog2(0) *)
+      | O, _ => true                                    (* the property speaks about w >= 1; agree pins the ValueError *)
       | _, Ok C => mux_ok w (c_g C) && clean C
       | _, _ => false end
   | CPop w obs =>
       match w, obs with
-      | O, Raise _ => true                               (* no count of nothing: the code raises *)
+      | O, _ => true                                     (* w >= 1 only; agree pins the IndexError *)
       | S _, Ok C => popcount_ok w (c_g C) && clean C
       | _, _ => false end
   | CBigAdder _ _ _ _ | CBigMux _ _ | CBigPop _ _ => true
